@@ -218,6 +218,9 @@ partial def pyval : P PyVal := do
   | "F" => do let xs ← many pyval; pure (.frozenset xs)
   | "l" => do let xs ← many pyval; pure (.list xs)
   | "t" => do let xs ← many pyval; pure (.tuple xs)
+  | "V" => do let xs ← many pyval; pure (.setlike xs)
+  | "Q" => do let xs ← many pyval; pure (.seqlike xs)
+  | "M" => do let kvs ← many (do let a ← pyval; let b ← pyval; pure (a, b)); pure (.maplike kvs)
   | _ => throw s!"bad pyval tag {k}"
 
 partial def showPy : PyVal → String
@@ -230,6 +233,9 @@ partial def showPy : PyVal → String
   | .frozenset xs => "F " ++ showList showPy xs
   | .list xs => "l " ++ showList showPy xs
   | .tuple xs => "t " ++ showList showPy xs
+  | .setlike xs => "V " ++ showList showPy xs
+  | .seqlike xs => "Q " ++ showList showPy xs
+  | .maplike kvs => "M " ++ showList (fun (kv : PyVal × PyVal) => showPy kv.1 ++ " " ++ showPy kv.2) kvs
 
 def kwargs : P (List (String × PyVal)) := many do
   let name ← tok
